@@ -483,6 +483,9 @@ def c14(tier):
         if len(set(outs.values())) > 1:
             rep.violation("trace-args:erased" if ai == 0 else "trace-args:control", {"src": ksrc, "args": [ai], "by_tracing": outs},
                           "a trace argument that aborts decides the outcome under some trace settings only: %s" % outs)
+    # validators: the handler wrappers (decoding of the script context, typed redeemers / datums, the `else` fallback) are generated code too,
+    # and they carry trace messages: each handler is run on conforming and near-miss contexts under the 9 settings
+    vres = validator_family(rep)
     full = sum(1 for es in groups.values() if len(es) == 9)
     if full < 0.7 * len(groups):
         raise vlib.ToolError("C14: only %d of %d (program, input) pairs were compiled under all 9 settings" % (full, len(groups)))
@@ -493,12 +496,97 @@ def c14(tier):
                    "(3 scopes x 3 levels); every run must equal Eval (which has no tracing parameter) and the 9 runs of one "
                    "(program, input) must agree with each other. distinct = (program, input)",
            "exhaustive": False, "program_input_pairs": len(groups), "pairs_with_all_9_settings": full, "diverging_pairs": diverging,
-           "directed_program_input_pairs": len(dgroups), "directed_families": sorted(set(m["family"] for m in dmods))}
+           "directed_program_input_pairs": len(dgroups), "directed_families": sorted(set(m["family"] for m in dmods)),
+           "validator_handler_context_pairs": vres["pairs"], "validator_pairs_failing": vres["failing"]}
     rc = rep.finish()
     vlib.write_evidence("C14", tier, "model_checking", cov,
                         ["trace arguments are variables (directed family trace-only) or absent; an argument EXPRESSION that can itself fail is not generated: "
                          "that is the recorded known finding trace-args:erased, re-run as a fixed reproducer"], time.time() - t0, len(rep.violations))
     return rc
+
+
+VALIDATOR_SRC = """
+validator w(k: Int) {
+  mint(r: Shape, _p: ByteArray, _tx: Data) {
+    when r is {
+      Circle(n) -> n + k > 0
+      Rect { w, h } -> w * h > k
+      Empty -> False
+    }
+  }
+
+  spend(d: Option<Point>, r: (Int, Bool), _o: Data, _tx: Data) {
+    expect Some(p) = d
+    p.x + r.1st > k && r.2nd
+  }
+
+  withdraw(r: List<Int>, _c: Data, _tx: Data) {
+    expect [a, _] = r
+    a >= k
+  }
+
+  else(_) {
+    fail
+  }
+}
+"""
+
+
+def validator_family(rep):
+    import c12_check
+    I = lambda n: {"d": "I", "v": n}
+    C = lambda t, *fs: {"d": "C", "tag": t, "fs": list(fs)}
+    L = lambda *xs: {"d": "L", "v": list(xs)}
+    shapes = [C(0, I(5)), C(0, I(-9)), C(1, I(2), I(3)), C(1, I(0), I(3)), C(2)]
+    tuples = [L(I(1), C(1)), L(I(-7), C(1)), L(I(1), C(0))]
+    datums = [C(0, C(0, I(1), I(2))), C(1)]
+    lists = [L(I(1), I(2)), L(I(-1), I(2)), L(I(1)), L(I(1), I(2), I(3)), L()]
+
+    def near(ds):
+        out = list(ds)
+        for d in ds:
+            out += c12_check.mutants(d)[:8]
+        seen, uniq = set(), []
+        for d in out:
+            k = cj(d)
+            if k not in seen:
+                seen.add(k)
+                uniq.append(d)
+        return uniq
+    ctx = lambda red, info: C(0, I(0), red, info)
+    ctxs = {"v.w.mint": [ctx(r, C(0, {"d": "B", "v": [1]})) for r in near(shapes)] + [C(0, I(0)), I(3), ctx(shapes[0], C(9))],
+            "v.w.spend": [ctx(r, C(1, I(0), d)) for r in near(tuples) for d in near(datums)[:10]] + [ctx(tuples[0], C(1, I(0)))],
+            "v.w.withdraw": [ctx(r, C(2, I(0))) for r in near(lists)],
+            "v.w.else": [ctx(I(0), C(3, I(0), I(1))), ctx(I(0), C(5, I(0)))]}
+    src = ag.render_types() + VALIDATOR_SRC
+    by = {}
+    for tr in ALL_TRACINGS:
+        o = vlib.run_harness("blueprint_ops", stdin_lines=[{"id": 0, "dir": os.path.join(vlib.WORK, "bp", "c14_%d_%s_%s" % (os.getpid(), tr[0], tr[1])), "src": src, "tracing": tr,
+                                                            "ops": [{"op": "apply", "data": [I(0)]}]}])[0]
+        if o.get("build") != "ok":
+            raise vlib.ToolError("C14: the validator family does not build under %s: %s" % (tr, json.dumps(o.get("build"))[:500]))
+        # the parameter is applied first (through the blueprint), then each handler is run
+        applied = o["ops"][0]["final"]
+        o2 = vlib.run_harness("blueprint_ops", stdin_lines=[{"id": 0, "dir": "", "blueprint_json": json.dumps(applied),
+                                                             "ops": [{"op": "eval", "title": t, "ctxs": cs} for t, cs in ctxs.items()]}])[0]
+        if o2.get("build") != "ok":
+            raise vlib.ToolError("C14: the applied blueprint does not load: %s" % json.dumps(o2.get("build"))[:300])
+        for op in o2["ops"]:
+            for ci, r in enumerate(op["results"]):
+                by.setdefault((op["title"], ci), []).append((tr, r["o"]))
+    failing = 0
+    for (title, ci), rs in by.items():
+        outs = set(o for _, o in rs)
+        if "panic" in outs or "decode_error" in outs or "no such validator" in outs:
+            rep.violation("validator-eval:%s:%d" % (title, ci), {"handler": title, "context": ctxs[title][ci], "by_tracing": rs}, "evaluating handler %s crashed / did not decode: %s" % (title, rs))
+        elif len(outs) > 1:
+            rep.violation("validator-diverge:%s:%s" % (title, cj(ctxs[title][ci])), {"handler": title, "context": ctxs[title][ci], "by_tracing": rs, "validator": VALIDATOR_SRC},
+                          "handler %s decides differently on the same script context under different trace settings: %s" % (title, rs))
+        if outs == {"fail"}:
+            failing += 1
+    if failing < 10 or failing > len(by) - 5:
+        raise vlib.ToolError("C14 validator family is one-sided: %d of %d (handler, context) pairs fail" % (failing, len(by)))
+    return {"pairs": len(by), "failing": failing}
 
 
 def c14_replay(path):
